@@ -1043,10 +1043,12 @@ pub fn main(args: &[String]) -> i32 {
         nontrivial: AtomicU64::new(0),
     };
     let findings: Mutex<Vec<Finding>> = Mutex::new(vec![]);
+    let dropped = AtomicU64::new(0);
     let next = AtomicU64::new(0);
     std::thread::scope(|sc| {
         for th in 0..threads {
             let (g, paths, stats, findings, next, engine, scratch) = (&g, &paths, &stats, &findings, &next, &engine, &scratch);
+            let dropped = &dropped;
             sc.spawn(move || {
                 let rt = tokio::runtime::Builder::new_current_thread().enable_all().build().unwrap();
                 loop {
@@ -1063,8 +1065,10 @@ pub fn main(args: &[String]) -> i32 {
                     }
                     if !out.is_empty() {
                         let mut f = findings.lock().unwrap();
-                        if f.len() < 200000 {
+                        if f.len() < 2_000_000 {
                             f.extend(out);
+                        } else {
+                            dropped.fetch_add(out.len() as u64, Ordering::Relaxed);
                         }
                     }
                 }
@@ -1083,6 +1087,7 @@ pub fn main(args: &[String]) -> i32 {
         "crash_checks": stats.crash_checks.load(Ordering::Relaxed),
         "gate_calls": stats.gate_calls.load(Ordering::Relaxed),
         "nontrivial": stats.nontrivial.load(Ordering::Relaxed),
+        "findings_dropped": dropped.load(Ordering::Relaxed),
         "samples": samples,
         "findings": *findings.lock().unwrap(),
     });
